@@ -348,10 +348,14 @@ pub fn run(tier: Tier) -> i32 {
     report.guard_nonzero("guard_slow_readers", slow);
     report.assume("membership enters as explicit snapshots on the channel the gossip layer would publish to; chitchat itself is not explored");
     report.assume("the subscriber is a WatchStream obtained from DatacakeHandle::membership_changes() and applies `left` then `joined`, exactly like the distributor and the poller");
+    crate::c16_services::run(tier, &mut report);
     report.finish()
 }
 
 pub fn replay(case: &J) -> i32 {
+    if case.get("block").and_then(|v| v.as_str()) == Some("services") {
+        return crate::c16_services::replay(case);
+    }
     // events carry their snapshots; rebuild the snapshot table from them
     let mut snaps: Vec<Peers> = Vec::new();
     let mut events = Vec::new();
